@@ -1185,3 +1185,52 @@ func sortOrdersAll(p *Prog, call ssa.CallInstruction) string {
 	}
 	return ""
 }
+
+// condOrdersAll: the comparison that selects a minimum while ranging over a map leaves no ties between different elements:
+// the position comparator, a string comparison, or line and column together. "" when it does.
+func condOrdersAll(p *Prog, fn *ssa.Function, cond ssa.Value) string {
+	isBefore := p.Method("Pos", "IsBefore")
+	for {
+		u, ok := cond.(*ssa.UnOp)
+		if !ok || u.Op != token.NOT {
+			break
+		}
+		cond = u.X
+	}
+	switch x := cond.(type) {
+	case *ssa.Call:
+		if isBefore != nil && staticCallee(&x.Call) == isBefore {
+			return ""
+		}
+		if n := calleeFullName(&x.Call); n == "strings.Compare" {
+			return ""
+		}
+		return "" // another predicate: not a comparison of one component, left to the rule that owns it
+	case *ssa.BinOp:
+		switch x.Op {
+		case token.LSS, token.GTR, token.LEQ, token.GEQ:
+		default:
+			return ""
+		}
+		if b, ok := x.X.Type().Underlying().(*types.Basic); ok && b.Info()&types.IsString != 0 {
+			return ""
+		}
+		if c, ok := x.X.(*ssa.Call); ok && calleeFullName(&c.Call) == "strings.Compare" {
+			return ""
+		}
+		if b, ok := x.X.Type().Underlying().(*types.Basic); ok && b.Info()&types.IsNumeric != 0 {
+			// a numeric component read from a field of the element; the element itself (a map of numbers) is its own key
+			if _, ch := fieldPathOf(x.X); len(ch) == 0 {
+				if _, ch2 := fieldPathOf(x.Y); len(ch2) == 0 {
+					return ""
+				}
+			}
+			txt := binExprAt(fn, x.Pos())
+			if txt == "" {
+				txt = "one numeric component"
+			}
+			return "a comparison of one numeric component (" + txt + " at " + p.Pos(x.Pos()) + ")"
+		}
+	}
+	return ""
+}
